@@ -5,6 +5,7 @@ import XalanModel.C01.CoreProofs
 import XalanModel.C01.CoreSpecProofs
 import XalanModel.C01.CoreCompile
 import XalanModel.C01.SpecScope
+import XalanModel.C01.Avt
 /-!
 # C01 — the transformation result is the tree XSLT 1.0 defines
 
@@ -428,5 +429,22 @@ theorem variables_attribute_set_wrong_index_counterexample :
     ((s.setCurrentStackFrameIndex (some s.cur)).getVariable 1).map (·.1) = some (some 10) ∧
     ((s.setCurrentStackFrameIndex (some s.glob)).getVariable 1).map (·.1) = some (some 99) := by
   decide
+
+/-! ## attribute value templates (XSLT §7.6.2) -/
+
+/-- **Braces inside a string literal of an expression are not template syntax** — for either quote style.
+`q` is `'` or `"`, `s` any characters other than `q` (so `{`, `}`, `{{`, `}}` and the *other* quote are allowed).
+(1) Lexing: when the expression part of a template reaches the literal `q s q`, exactly those characters are appended
+to the expression text and lexing goes on in the expression, whatever follows (`rest`) and whatever came before
+(`cur`, `out`).  (2) The whole template `{q s q}` parses to the one expression part `Literal s`. -/
+theorem avt_literals_opaque (q : Char) (hq : q = '\'' ∨ q = '"') (s rest cur : List Char) (out : List Avt.Part)
+    (hs : q ∉ s) :
+    Avt.lex .expr (q :: s ++ q :: rest) cur out = Avt.lex .expr rest (cur ++ q :: s ++ [q]) out ∧
+    Avt.avtParse (String.ofList ('{' :: q :: s ++ [q, '}'])) = some [.inr (.lit (String.ofList s))] := by
+  have hq' : Avt.isQuote q = true := by rcases hq with h | h <;> subst h <;> decide
+  exact ⟨Avt.lex_literal_in_expr q hq' s rest cur out hs, Avt.avtParse_literal q hq' s hs⟩
+
+/-- non-trivial instance: a double-quoted literal holding `{`, `}}` and an apostrophe -/
+example : ('"' : Char) ∉ ['{', 'x', '}', '}', '\''] := by decide
 
 end XalanModel.Props.C01
